@@ -191,7 +191,11 @@ class ParseAPI(object):
         blob = self._electrum_to_blob(s)
         if blob and len(blob) == 16:
             blob_hex = b2h(blob)
-            return self._network.keys.electrum_seed(seed=blob_hex)
+            try:
+                return self._network.keys.electrum_seed(seed=blob_hex)
+            except ValueError:
+                # the stretched seed is not a valid secret exponent
+                return None
         return None
 
     def electrum_prv(self, s: str) -> Any:
@@ -203,7 +207,11 @@ class ParseAPI(object):
         blob = self._electrum_to_blob(s)
         if blob and len(blob) == 32:
             mpk = from_bytes_32(blob)
-            return self._network.keys.electrum_private(master_private_key=mpk)
+            try:
+                return self._network.keys.electrum_private(master_private_key=mpk)
+            except ValueError:
+                # not a valid secret exponent
+                return None
         return None
 
     def electrum_pub(self, s: str) -> Any:
@@ -214,7 +222,11 @@ class ParseAPI(object):
         """
         blob = self._electrum_to_blob(s)
         if blob and len(blob) == 64:
-            return self._network.keys.electrum_public(master_public_key=blob)
+            try:
+                return self._network.keys.electrum_public(master_public_key=blob)
+            except ValueError:
+                # not a point of the curve
+                return None
         return None
 
     def p2pkh(self, s: str) -> Contract | None:
